@@ -379,7 +379,7 @@ def run(ctx, model=True):
     extra = fixed_scenarios()
     if ctx.tier != "thorough" and not ctx.deep:
         extra = extra[:: 4]
-    return E.run_property(ctx, "C01", oracle, gen=make_gen(), quick=170, thorough=4000, model=model, extra_scenarios=extra)
+    return E.run_property(ctx, "C01", oracle, gen=make_gen(), quick=110, thorough=2400, model=model, extra_scenarios=extra)
 
 
 def run_impl_only(ctx):
